@@ -2,7 +2,8 @@
    Property theorems only: each closed by [exact] of a lemma proved in Engine/OwnershipProofs*.v. *)
 From Coq Require Import List String Bool ZArith.
 From Helm Require Import Common.Assoc Engine.Types Engine.Eff Engine.Ops Engine.Cluster Engine.Seq
-                         Engine.DryRun Engine.Ownership Engine.OwnershipProofs.
+                         Engine.DryRun Engine.Ownership Engine.OwnershipProofs Engine.OwnershipCalls
+                         Engine.OwnershipConfine Engine.OwnershipStamped.
 Import ListNotations.
 Local Open Scope string_scope.
 
@@ -58,3 +59,138 @@ Theorem C07_stamp_owned :
   forall (rn ns : string) (r : res), owned_by rn ns (r_fields (stamp rn ns r)) = true.
 Proof. exact owned_by_stamp. Qed.
 Print Assumptions C07_stamp_owned.
+
+(* Every path of install / upgrade / rollback / uninstall (any flags, any chart, whatever
+   storage and cluster answer, including the atomic fall-backs): a KCreate carries either
+   [map (stamp rn ns) m] for a manifest m or exactly one hook resource; the target of every
+   KUpdate is [map (stamp rn ns) m]. *)
+Theorem C07_stamped :
+  forall (rn ns : string) (o : op),
+    all_eff (fun e => match e with
+                      | KCreate rs => (exists m, rs = map (stamp rn ns) m) \/ (exists h, rs = [h_res h])
+                      | KUpdate _ tgt => exists m, tgt = map (stamp rn ns) m
+                      | _ => True
+                      end) (op_prog rn ns o).
+Proof. exact ops_writes_stamped. Qed.
+Print Assumptions C07_stamped.
+
+(* ... hence every manifest resource in such a payload carries the managed-by label and both
+   annotations of this release *)
+Theorem C07_stamped_owned :
+  forall (rn ns : string) (o : op),
+    all_eff (fun e => match e with
+                      | KCreate rs => Forall (fun r => owned_by rn ns (r_fields r) = true) rs \/ exists h, rs = [h_res h]
+                      | KUpdate _ tgt => Forall (fun r => owned_by rn ns (r_fields r) = true) tgt
+                      | _ => True
+                      end) (op_prog rn ns o).
+Proof. exact ops_payload_owned. Qed.
+Print Assumptions C07_stamped_owned.
+
+(* ---- deletes are confined to the release ---- *)
+
+(* per call (pkg/kube/client.go): Update deletes only keys of the ORIGINAL list that are absent
+   from the target; Delete only keys of its argument; Create deletes nothing *)
+Theorem C07_update_deletes_confined :
+  forall (k : kstate) (cur tgt : list res),
+    incl (mut_deletes (snd (k_update k cur tgt)))
+         (keys (filter (fun o => negb (in_keys (rkey o) tgt)) cur)).
+Proof. exact k_update_deletes_confined. Qed.
+Print Assumptions C07_update_deletes_confined.
+
+Theorem C07_delete_deletes_confined :
+  forall (rs : list res) (k : kstate) (ok : bool) (muts : list (verb * string)),
+    incl (mut_deletes (snd (k_delete k rs ok muts))) (mut_deletes muts ++ keys rs)%list.
+Proof. exact k_delete_deletes. Qed.
+Print Assumptions C07_delete_deletes_confined.
+
+Theorem C07_create_deletes_nothing :
+  forall (rs : list res) (k : kstate) (ok : bool) (muts : list (verb * string)),
+    mut_deletes (snd (k_create k rs ok muts)) = mut_deletes muts.
+Proof. exact k_create_deletes. Qed.
+Print Assumptions C07_create_deletes_nothing.
+
+(* whole operation: every (VDelete, key) in the trace of an operation — any of the four, any
+   flags (atomic fall-backs, cleanup-on-fail, hooks with delete policies included), any world,
+   any storage-fault / crash / cluster-fault plan — has its key among the manifest and hook keys
+   of a revision stored at operation start, or of the operation's own chart *)
+Theorem C07_deletes_confined :
+  forall (rn ns : string) (c : opcase) (w : world),
+    incl (trace_deletes (snd (run_store_op rn ns c w)))
+         (flat_map (fun r => (map rkey (manifest r) ++ map (fun h => rkey (h_res h)) (hooks r))%list) (w_led w)
+          ++ match oc_op c with
+             | OpInstall _ _ _ m h | OpUpgrade _ _ _ m h => (map rkey m ++ map (fun h => rkey (h_res h)) h)%list
+             | OpRollback _ | OpUninstall _ => []
+             end)%list.
+Proof. exact deletes_confined. Qed.
+Print Assumptions C07_deletes_confined.
+
+(* the set does not grow along a history except by the charts of the operations themselves *)
+Theorem C07_ledger_keys_confined :
+  forall (rn ns : string) (c : opcase) (w : world),
+    incl (ledger_keys (w_led (fst (fst (run_store_op rn ns c w)))))
+         (ledger_keys (w_led w) ++ op_chart_keys (oc_op c))%list.
+Proof. exact ledger_keys_confined. Qed.
+Print Assumptions C07_ledger_keys_confined.
+
+(* ---- non-vacuity ---- *)
+
+(* the hypotheses of the refusal theorems are met by concrete worlds: a foreign object, an
+   object of another release, the same release name in another namespace, a partially labelled
+   one; with take-ownership the same install goes through and stamps the object *)
+Example C07_refuse_example :
+  forallb (fun live =>
+     let w := mkW [] [("ConfigMap/a", live); ("ConfigMap/bystander", [("d:k", "x")])] in
+     let fl t := mkFlags false false false false 0 false false false t 0 in
+     let run t := run_store_op "rel" "default"
+                    (mkOp (OpInstall (fl t) 1 1 [mkRes "ConfigMap" "a" [("d:k", "v")]] []) (mkSF None None) (mkCF None None false)) w in
+     negb (owned_by "rel" "default" live)
+     && outcome_eqb (snd (fst (run false))) (OErr EConflict)
+     && Nat.eqb (List.length (snd (run false))) 0
+     && outcome_eqb (snd (fst (run true))) OOk
+     && match aget "ConfigMap/a" (w_objs (fst (fst (run true)))) with
+        | Some f => owned_by "rel" "default" f
+        | None => false
+        end)
+    [ [("d:k", "live")];
+      [("d:k", "live"); (managed_by_key, "Helm"); (rel_name_key, "other"); (rel_ns_key, "default")];
+      [("d:k", "live"); (managed_by_key, "Helm"); (rel_name_key, "rel"); (rel_ns_key, "elsewhere")];
+      [("d:k", "live"); (managed_by_key, "Helm")];
+      [("d:k", "live"); (managed_by_key, "Helm"); (rel_name_key, "rel")];
+      [("d:k", "live"); (rel_name_key, "rel"); (rel_ns_key, "default")] ] = true.
+Proof. vm_compute. reflexivity. Qed.
+Print Assumptions C07_refuse_example.
+
+(* upgrade adding a resource over a foreign object: refused with an empty trace; a correctly
+   owned object is adopted *)
+Example C07_refuse_upgrade_example :
+  let cm n v := mkRes "ConfigMap" n [("d:k", v)] in
+  let w live := mkW [mkRelease 1 SDeployed 1 1 [cm "base" "1"] []]
+                    [("ConfigMap/base", stamp_fields "rel" "default" [("d:k", "1")]); ("ConfigMap/a", live)] in
+  let run live := run_store_op "rel" "default"
+                    (mkOp (OpUpgrade (mkFlags false false false false 0 false false false false 0) 2 1 [cm "base" "2"; cm "a" "v"] [])
+                          (mkSF None None) (mkCF None None false)) (w live) in
+  upgrade_current (w_led (w [])) = Some (mkRelease 1 SDeployed 1 1 [cm "base" "1"] []) /\
+  snd (fst (run [("d:k", "live")])) = OErr EConflict /\ snd (run [("d:k", "live")]) = [] /\
+  snd (fst (run (stamp_fields "rel" "default" [("d:k", "live")]))) = OOk.
+Proof. vm_compute. repeat split; reflexivity. Qed.
+Print Assumptions C07_refuse_upgrade_example.
+
+(* deletes do happen (the confinement statement is not about an empty list): an upgrade that
+   drops a resource deletes exactly that key *)
+Example C07_deletes_example :
+  let cm n v := mkRes "ConfigMap" n [("d:k", v)] in
+  let w := mkW [mkRelease 1 SDeployed 1 1 [cm "a" "1"; cm "b" "1"] []]
+               [("ConfigMap/a", stamp_fields "rel" "default" [("d:k", "1")]);
+                ("ConfigMap/b", stamp_fields "rel" "default" [("d:k", "1")]);
+                ("ConfigMap/bystander", [("d:k", "x")])] in
+  trace_deletes (snd (run_store_op "rel" "default"
+                        (mkOp (OpUpgrade (mkFlags false false false false 0 false false false false 0) 2 1 [cm "a" "2"] [])
+                              (mkSF None None) (mkCF None None false)) w)) = ["ConfigMap/b"].
+Proof. vm_compute. reflexivity. Qed.
+Print Assumptions C07_deletes_example.
+
+(* C07_crd_caveat (prose): the quantifier of C07_refuse_before_mutation ranges over manifests.
+   A chart's crds/ directory is outside the model: Install.RunWithContext calls installCRDs
+   (a cluster Create of every CRD object) BEFORE rendering and before existingResourceConflict,
+   so an install that is later refused may already have created CRDs; CRDs are not part of the
+   release manifest, are never stamped and are never deleted by Helm. *)
